@@ -3,6 +3,9 @@ Open Scope nat_scope.
 Check (C18_discovery_exact : forall g srcs v, discover g srcs = Some v -> forall x, In x v <-> reach g srcs x).
 Check (C18_discovery_order_independent : forall g s1 s2 v1 v2, (forall y, In y s1 <-> In y s2) ->
   discover g s1 = Some v1 -> discover g s2 = Some v2 -> forall x, In x v1 <-> In x v2).
+Check (C18_discovery_registers_each_directory_once : forall g srcs v, discover g srcs = Some v -> NoDup v).
+Check (C18_discovery_of_sources_named_together : forall g s1 s2 v1 v2 v, discover g s1 = Some v1 -> discover g s2 = Some v2 ->
+  discover g (s1 ++ s2) = Some v -> forall x, In x v <-> In x v1 \/ In x v2).
 Check (C18_discovery_terminates : forall g srcs, wf g -> (forall s, In s srcs -> s < length g) -> discover g srcs <> None).
 Check (C18_customwidgets_once : forall hs objs, NoDup (custom_widgets hs objs)
   /\ (forall c, In c (custom_widgets hs objs) <-> (exists o, In o objs /\ snd o = true /\ fst o = c) /\ hs c = true)).
